@@ -257,7 +257,7 @@ def fn_index(res):
     allf = sorted(res.functions + res.standins, key=lambda r: 0)
     by_name = {}
     for r in res.functions + res.standins:
-        by_name.setdefault((r['file'], r['path'].split('::')[-1]), []).append(r)
+        by_name.setdefault((r['file'], r['path'].split('::')[-1].split('#')[-1]), []).append(r)
     for s in nontwin:
         cands = by_name.get((s['file'], s['name']), [])
         best = None
